@@ -458,6 +458,17 @@ def handle (st : St) (args : List String) (impl : String) : St × Verdict :=
   | ["pl_append", p] => match nat? p with
     | some p => let pl := st.pl.append p; ({ st with pl := pl }, cmpModel (showPl pl) impl)
     | none => (st, .unknown)
+  -- `clean <name:age:f|d,…>`: directory entries (age in seconds, `-` = access time in the future) before a
+  -- compaction => the names `clean_rewind_files` deleted, sorted
+  | ["clean", ents] =>
+    let inner := ((ents.drop 1).dropEnd 1).toString
+    let parts := if inner.isEmpty then [] else inner.splitOn ","
+    let es := parts.filterMap fun p => match p.splitOn ":" with
+      | [n, a, k] => some ({ name := n, isDir := k == "d", age := a.toNat? } : DirEnt)
+      | _ => none
+    if es.length ≠ parts.length then (st, .unknown) else
+    let del := (cleanRewindFiles es).toArray.qsort (· < ·) |>.toList
+    (st, cmpModel ("[" ++ ",".intercalate del ++ "]") impl)
   | ["pl_try", p] => match nat? p with
     -- `append` with its assertions (`Model/PruneList.lean` `appendChecked`): a panic leaves the list as it was
     | some p => match st.pl.appendChecked 64 p with
